@@ -33,6 +33,7 @@ ASSUMPTIONS = [
     "relaxation is asserted as the supersolution bound of Appendix A.4 built from the lowest eigenpair of the harness's own constant-coefficient operator and the minimum scaled diffusivity over [m_f, m_i]; for a time-varying schedule the same bound is applied from the level at which the schedule reaches its final value (from there on the run is a constant-drawdown run started inside [min m_f, m_i])",
 ]
 LEVEL_TEXT = (
+    "The literal time-monotonicity sentence is asserted; its violations on the unchanged tree (node 0 rises when a step grows) are a known finding recognised by that mechanism. "
     "Each oracle (bounds, spatial monotonicity, conditional time monotonicity, relaxation bound) is a theorem "
     "for the documented scheme with any positive diffusivity table, so it cannot alarm on a correct "
     "implementation; the search covers tables, pressure pairs close to 1, grids with huge mesh ratios and "
